@@ -65,9 +65,6 @@ theorem step_frame (m : Orders) (op : Op) (c' : Nat) (h : c' ≠ op.cid) :
       | exact lookup_setState_ne _ _ _ _ _ h
       | exact lookup_insert_ne _ _ _ _ h
 
-/-- tracked state of `c` -/
-def stateOf (m : Orders) (c : Nat) : Option Active := (lookup m c).map (·.state)
-
 /-- One-step refinement: the tracked state of `c` evolves by the lifecycle table. -/
 theorem step_refines (m : Orders) (op : Op) (c : Nat) (hx : op.exchangeStatesOnly = true) :
     stateOf (step m op) c = Lifecycle.stepOp c (stateOf m c) op := by
